@@ -363,3 +363,5 @@ def run(ctx):
     pepsolve.r_fresh_declarations(ctx, only=("declare_block_partition",))
     formula.r_formula(ctx, "sound", only={"BlockSmoothConvexFunction"})
     formula.r_formula(ctx, "complete", only={"BlockSmoothConvexFunction"})
+    from . import hookprog
+    hookprog.r_hook_programs(ctx, "complete", only={"BlockSmoothConvexFunction"})
